@@ -123,6 +123,8 @@ type vfScope struct {
 	// OnConn / OnEvent are optional extra observers, called before the gate.
 	OnConn  func(point string, c *Conn, call *callReq, a, b int, err error)
 	OnEvent func(point string, obj interface{}, s string, a int, err error)
+	// OnDur may shorten a pause of the driver (heartbeat interval) for connections of this scope.
+	OnDur func(point string, c *Conn, d time.Duration) time.Duration
 	// ReqOf maps a call to the request id found in its context (set by verifCtx).
 	reqMu sync.Mutex
 	reqOf map[*callReq]int
@@ -239,6 +241,13 @@ func init() {
 		}
 		sc.tr.Emit(point, "conn", sc.tr.ObjID(c), "req", req, "stream", sid, "a", a, "b", b, "err", vfErrClass(err))
 		sc.gates.Reach(point, req)
+	}
+	verifDurHook = func(point string, c *Conn, d time.Duration) time.Duration {
+		sc := vfScopeOfConn(c)
+		if sc == nil || sc.OnDur == nil {
+			return d
+		}
+		return sc.OnDur(point, c, d)
 	}
 	verifEventHook = func(point string, obj interface{}, s string, a int, err error) {
 		sc := vfScopeOf(obj)
